@@ -511,6 +511,14 @@ var boundedTests = map[string][]string{
 	"C04": {"TestKvcBoundedRewrite"},
 	"C05": {"TestKvcBoundedAliasExpansion", "TestKvcBoundedAliasNames", "TestKvcBoundedRowBatch"},
 	"C09": {"TestKvcBoundedAggregates"},
+	"C15": {"TestKvcBoundedPrecedenceChains", "TestKvcBoundedParseRender"},
+	"C16": {"TestKvcBoundedSpacing"},
+}
+
+var boundedBound = map[string]string{
+	"TestKvcBoundedSpacing":          "every sequence of at most four tokens from a pool of 20 token texts, each rendered with every choice of nothing / blank / tab-newline run in its optional gaps (4.4 million texts)",
+	"TestKvcBoundedPrecedenceChains": "every unparenthesised chain of at most four binary operators (69 904 texts) against a split-at-the-weakest-operator oracle; print/re-parse of the accepted ones",
+	"TestKvcBoundedParseRender":      "30 000 random typed trees of depth at most 4 (seed 15) with IN, BETWEEN, !, calls and field access, each printed with minimal, random and full parenthesisation and random letter case; print/re-parse of the accepted ones (about 43 000 statements)",
 }
 
 func runBounded(prop string) []boundedRes {
@@ -546,10 +554,14 @@ func runBounded(prop string) []boundedRes {
 			o = o[:8000] + "\n...[truncated]"
 		}
 		ok := err == nil && strings.Contains(o, "ok ") && !strings.Contains(o, "--- FAIL")
+		bound := "stores of at most 40 pairs, batch sizes {1,2,3,5,7,32}, the statement / expression lists of the test (C04: every arithmetic tree of four shapes over five leaves, 78 400 expressions x 5 pairs)"
+		if b, ok := boundedBound[tn]; ok {
+			bound = b
+		}
 		res = append(res, boundedRes{name: tn, ok: ok, out: o, ev: map[string]any{
 			"check":  tn + " (/verif/bounded, injected with go test -overlay)",
 			"kind":   "bounded differential test on the real package: NOT a proof",
-			"bound":  "stores of at most 40 pairs, batch sizes {1,2,3,5,7,32}, the statement / expression lists of the test (C04: every arithmetic tree of four shapes over five leaves, 78 400 expressions x 5 pairs)",
+			"bound":  bound,
 			"result": map[bool]string{true: "pass", false: "FAIL"}[ok],
 		}})
 	}
